@@ -167,8 +167,13 @@ T_End ==
   /\ Ev.ev = "end" /\ Running
   /\ poolRet' = "nil"
   /\ bad' = bad \cup Flag(Ev.err = "", "RunReturnedError")
-                \cup Flag(Ev.request = request /\ Ev.response = response, "MetricsRequestResponse")
-                \cup Flag(Ev.inst_start = instStart /\ Ev.inst_finish = instFinish, "MetricsInstances")
+                \* (the engine's counters are engine-wide: a second pool of the engine, when the run has one, adds its
+                \* own shots and instances, recorded by its own mocks)
+                \cup Flag(Ev.request = request + Ev.twin_shots /\ Ev.response = response + Ev.twin_shots, "MetricsRequestResponse")
+                \cup Flag(Ev.inst_start = instStart + Len(Ev.twin_ids) /\ Ev.inst_finish = instFinish + Len(Ev.twin_ids), "MetricsInstances")
+                \* ids are numbered PER POOL: the other pool's instances are 0 .. its count - 1 as well (this pool's own
+                \* ids: T_Bind, IdsAtEnd)
+                \cup Flag({Ev.twin_ids[k] : k \in 1..Len(Ev.twin_ids)} = 0..(Len(Ev.twin_ids) - 1), "OtherPoolIdsFromZero")
                 \* the result file of the real phout behind the recording aggregator: one line per fired shot and per
                 \* discarded token, the discarded ones (and only they) tagged `discarded` with net code 777
                 \cup Flag(~Ev.phout \/ (Ev.ph_lines = fired + discarded /\ Ev.ph_disc = discarded), "PhoutLinesAreShotsAndDiscards")
